@@ -218,6 +218,15 @@ fn guarded(f: impl FnOnce() -> String) -> String {
 pub fn run(op: &str, a: &[&str]) -> Option<String> {
     Some(match op {
         "dig.obj" => dig_obj(a[0], a[1]).unwrap_or_else(|| "bad-args".to_string()),
+        // Digest::input_str + Digest::result_str (the hex convenience API) on a valid UTF-8 string given as hex
+        "dig.str" => {
+            let bytes = unhex(a[1]);
+            let text = match String::from_utf8(bytes) { Ok(t) => t, Err(_) => return Some("bad-args".to_string()) };
+            fn go<D: Digest>(mk: impl FnOnce() -> D, t: &str) -> String {
+                guarded(|| { let mut d = mk(); d.input_str(t); d.result_str() })
+            }
+            with_digest!(a[0], mk => go(mk, &text)).unwrap_or_else(|| "bad-args".to_string())
+        }
         "dig.blake2b" => {
             let (ol, key, msg) = (us(a[0]), unhex(a[1]), unhex(a[2]));
             guarded(|| {
